@@ -46,7 +46,18 @@ class SnTracer:
         self.system = System()
         self.env = self.system.env
         self.x = X()
-        src = Source('src', cycle_time=0)
+        from simprocesd.model.factory_floor import PartGenerator, Batch, Part
+        # variations derived from the configuration: both sensors under one name (asset names need not be unique);
+        # the observed processor working on batches of 2 or 3 parts (a batch is one finished item)
+        samename = bool(cfg.get('samename', (cfg['iv'] + cfg['n']) % 2 == 0))
+        bsize = cfg.get('bsize', [0, 2, 3][(cfg['iv'] + cfg['qcap']) % 3])
+
+        class Gen(PartGenerator):
+            def generate_part_helper(self, part_name, part_counter):
+                if not bsize:
+                    return Part(part_name)
+                return Batch(part_name, [Part('%s_%d' % (part_name, i)) for i in range(bsize)])
+        src = Source('src', Gen('p'), cycle_time=0)
         self.m1 = PartProcessor('M1', upstream=[src], cycle_time=PC * TICK)
         self.m2 = PartProcessor('M2', upstream=[self.m1], cycle_time=0)
         Sink('sink', upstream=[self.m2])
@@ -70,9 +81,9 @@ class SnTracer:
         self.P = PeriodicSensor(self.iv_float,
                                 [AttributeProbe('x', self.x), AttributeProbe('lst', self.x),
                                  Probe(lambda t: t.x * 2, self.x)],
-                                name='P', data_capacity=cap(cfg['pcap']))
+                                name='S' if samename else 'P', data_capacity=cap(cfg['pcap']))
         self.Q = OutputPartSensor(self.m1, [AttributeProbe('quality', None), AttributeProbe('marks', None)],
-                                  sensing_interval=cfg['n'], name='Q', data_capacity=cap(cfg['qcap']))
+                                  sensing_interval=cfg['n'], name='S' if samename else 'Q', data_capacity=cap(cfg['qcap']))
 
         class MyCms(Cms):
             def on_sense(self, sensor, time, data):
